@@ -1,11 +1,210 @@
-(* Property C14 -- Caching functions are history-independent and interpolate the cached function. *)
+(* Property C14 -- Caching functions are history-independent and interpolate the cached function.
+   This file contains nothing but the property theorems, each closed by [exact]/[apply] of a lemma
+   from Proofs/, with Print Assumptions beneath.
+
+   Reading guide.  x, y, z : Z -> Q are the node arrays of the axes (index 0 and top are the two
+   guard nodes, 1 .. top-1 the sampling nodes; cells 1 .. top-2 are the permitted ones), fb the
+   function_boundaries (None or Some (lo, hi)), nbe no_boundary_error, f the wrapped function.
+   [eval_afterN fb nbe x.. top.. f hist p] is what the model of CachingND returns at p after the
+   points of [hist] have been evaluated in that order on a new object (Val v: value of the cached
+   polynomial, Direct v: the wrapped function called at p itself, Err: ValueError).
+   [specN] is the (tensor product of the) cubic through the wrapped function's values at the raw
+   nodes, with central-difference slopes: no cache, no normalisation. *)
 Require Import Cherab.Common.Qx.
 Require Import Cherab.Model.C14_Cache Cherab.Model.C14_Caching.
-Require Import Cherab.Proofs.C14_History.
+Require Import Cherab.Proofs.C14_History Cherab.Proofs.C14_Hermite Cherab.Proofs.C14_Find Cherab.Proofs.C14_Grid
+               Cherab.Proofs.C14_Dim1 Cherab.Proofs.C14_Tensor.
 Open Scope Q_scope.
 
+(* ---- 1. history independence: for EVERY list of previously evaluated points (inside or outside the
+        area, any order, any length), every node array, every wrapped function ---- *)
 Theorem C14_history_independent_1d :
   forall fb nbe x top f (hist : list Q) (p : Q),
   eval_after1 fb nbe x top f hist p = pure1 fb nbe x top f p.
 Proof. exact history_independent_1d. Qed.
 Print Assumptions C14_history_independent_1d.
+
+Theorem C14_history_independent_2d :
+  forall fb nbe x y topx topy f (hist : list (Q * Q)) (p : Q * Q),
+  eval_after2 fb nbe x y topx topy f hist p = pure2 fb nbe x y topx topy f p.
+Proof. exact history_independent_2d. Qed.
+Print Assumptions C14_history_independent_2d.
+
+Theorem C14_history_independent_3d :
+  forall fb nbe x y z topx topy topz f (hist : list (Q * Q * Q)) (p : Q * Q * Q),
+  eval_after3 fb nbe x y z topx topy topz f hist p = pure3 fb nbe x y z topx topy topz f p.
+Proof. exact history_independent_3d. Qed.
+Print Assumptions C14_history_independent_3d.
+
+(* ---- 2. what is returned inside: the cubic of the cell, independent of history and of both normalisations ---- *)
+Theorem C14_value_is_cell_cubic_1d :
+  forall x top, increasing x top -> (3 <= top)%Z -> forall fb nbe f hist p i,
+  locate1 x top p = Some i ->
+  exists v, eval_after1 fb nbe x top f hist p = Val v /\ v == spec1 x f i p.
+Proof. exact after1_spec. Qed.
+Print Assumptions C14_value_is_cell_cubic_1d.
+
+Theorem C14_value_is_tensor_cubic_2d :
+  forall x y topx topy, increasing x topx -> increasing y topy -> (3 <= topx)%Z -> (3 <= topy)%Z ->
+  forall fb nbe f hist p c, locate2 x y topx topy p = Some c ->
+  exists v, eval_after2 fb nbe x y topx topy f hist p = Val v /\ v == spec2 x y f c p.
+Proof. exact after2_spec. Qed.
+Print Assumptions C14_value_is_tensor_cubic_2d.
+
+Theorem C14_value_is_tensor_cubic_3d :
+  forall x y z topx topy topz, increasing x topx -> increasing y topy -> increasing z topz ->
+  (3 <= topx)%Z -> (3 <= topy)%Z -> (3 <= topz)%Z ->
+  forall fb nbe f hist p c, locate3 x y z topx topy topz p = Some c ->
+  exists v, eval_after3 fb nbe x y z topx topy topz f hist p = Val v /\ v == spec3 x y z f c p.
+Proof. exact after3_spec. Qed.
+Print Assumptions C14_value_is_tensor_cubic_3d.
+
+(* ---- 3. equals the wrapped function at every sampling node of the permitted cells ---- *)
+Theorem C14_interpolates_nodes_1d :
+  forall x top, increasing x top -> (3 <= top)%Z -> forall fb nbe f hist i, (1 <= i <= top - 2)%Z ->
+  exists v, eval_after1 fb nbe x top f hist (x i) = Val v /\ v == f (x i).
+Proof. exact after1_node. Qed.
+Print Assumptions C14_interpolates_nodes_1d.
+
+Theorem C14_interpolates_nodes_2d :
+  forall x y topx topy, increasing x topx -> increasing y topy -> (3 <= topx)%Z -> (3 <= topy)%Z ->
+  forall fb nbe f hist i j, (1 <= i <= topx - 2)%Z -> (1 <= j <= topy - 2)%Z ->
+  exists v, eval_after2 fb nbe x y topx topy f hist (x i, y j) = Val v /\ v == f (x i, y j).
+Proof. exact after2_node. Qed.
+Print Assumptions C14_interpolates_nodes_2d.
+
+Theorem C14_interpolates_nodes_3d :
+  forall x y z topx topy topz, increasing x topx -> increasing y topy -> increasing z topz ->
+  (3 <= topx)%Z -> (3 <= topy)%Z -> (3 <= topz)%Z ->
+  forall fb nbe f hist i j k, (1 <= i <= topx - 2)%Z -> (1 <= j <= topy - 2)%Z -> (1 <= k <= topz - 2)%Z ->
+  exists v, eval_after3 fb nbe x y z topx topy topz f hist (x i, y j, z k) = Val v /\ v == f (x i, y j, z k).
+Proof. exact after3_node. Qed.
+Print Assumptions C14_interpolates_nodes_3d.
+
+(* ---- 4. a function linear in each coordinate is reproduced exactly, everywhere a value is returned ---- *)
+Theorem C14_reproduces_linear_1d :
+  forall x top, increasing x top -> (3 <= top)%Z -> forall fb nbe f A B hist p v,
+  (forall t, f t == A + B * t) -> eval_after1 fb nbe x top f hist p = Val v -> v == f p.
+Proof. exact after1_linear. Qed.
+Print Assumptions C14_reproduces_linear_1d.
+
+Theorem C14_reproduces_bilinear_2d :
+  forall x y topx topy, increasing x topx -> increasing y topy -> (3 <= topx)%Z -> (3 <= topy)%Z ->
+  forall fb nbe f A B C D hist p v,
+  (forall a b, f (a, b) == A + B * a + C * b + D * a * b) ->
+  eval_after2 fb nbe x y topx topy f hist p = Val v -> v == f p.
+Proof. exact after2_bilinear. Qed.
+Print Assumptions C14_reproduces_bilinear_2d.
+
+Theorem C14_reproduces_trilinear_3d :
+  forall x y z topx topy topz, increasing x topx -> increasing y topy -> increasing z topz ->
+  (3 <= topx)%Z -> (3 <= topy)%Z -> (3 <= topz)%Z ->
+  forall fb nbe f c0 cx cy cz cxy cxz cyz cxyz hist p v,
+  (forall a b c, f (a, b, c) == c0 + cx * a + cy * b + cz * c + cxy * a * b + cxz * a * c + cyz * b * c + cxyz * a * b * c) ->
+  eval_after3 fb nbe x y z topx topy topz f hist p = Val v -> v == f p.
+Proof. exact after3_trilinear. Qed.
+Print Assumptions C14_reproduces_trilinear_3d.
+
+(* ---- 5. function bounds only rescale internally: same result for any two settings (and any two histories) ---- *)
+Theorem C14_function_bounds_irrelevant_1d :
+  forall x top, increasing x top -> (3 <= top)%Z -> forall fb nbe f fb' hist hist' p,
+  result_equiv (eval_after1 fb nbe x top f hist p) (eval_after1 fb' nbe x top f hist' p).
+Proof. exact after1_bounds_irrelevant. Qed.
+Print Assumptions C14_function_bounds_irrelevant_1d.
+
+Theorem C14_function_bounds_irrelevant_2d :
+  forall x y topx topy, increasing x topx -> increasing y topy -> (3 <= topx)%Z -> (3 <= topy)%Z ->
+  forall fb nbe f fb' hist hist' p,
+  result_equiv (eval_after2 fb nbe x y topx topy f hist p) (eval_after2 fb' nbe x y topx topy f hist' p).
+Proof. exact after2_bounds_irrelevant. Qed.
+Print Assumptions C14_function_bounds_irrelevant_2d.
+
+Theorem C14_function_bounds_irrelevant_3d :
+  forall x y z topx topy topz, increasing x topx -> increasing y topy -> increasing z topz ->
+  (3 <= topx)%Z -> (3 <= topy)%Z -> (3 <= topz)%Z -> forall fb nbe f fb' hist hist' p,
+  result_equiv (eval_after3 fb nbe x y z topx topy topz f hist p) (eval_after3 fb' nbe x y z topx topy topz f hist' p).
+Proof. exact after3_bounds_irrelevant. Qed.
+Print Assumptions C14_function_bounds_irrelevant_3d.
+
+(* ---- 6. outside the node range [x 1, x (top-1)) : ValueError, or the wrapped function itself; inside: a value ---- *)
+Theorem C14_outside_policy_1d :
+  forall x top, increasing x top -> (3 <= top)%Z -> forall fb nbe f hist p,
+  (p < x 1%Z \/ x (top - 1)%Z <= p -> eval_after1 fb nbe x top f hist p = if nbe then Direct (f p) else Err) /\
+  (x 1%Z <= p -> p < x (top - 1)%Z -> exists v, eval_after1 fb nbe x top f hist p = Val v).
+Proof. intros; split; [apply after1_outside | apply after1_inside]; assumption. Qed.
+Print Assumptions C14_outside_policy_1d.
+
+Theorem C14_outside_policy_2d :
+  forall x y topx topy, increasing x topx -> increasing y topy -> (3 <= topx)%Z -> (3 <= topy)%Z ->
+  forall fb nbe f hist p,
+  (fst p < x 1%Z \/ x (topx - 1)%Z <= fst p) \/ (snd p < y 1%Z \/ y (topy - 1)%Z <= snd p) ->
+  eval_after2 fb nbe x y topx topy f hist p = if nbe then Direct (f p) else Err.
+Proof. exact after2_outside. Qed.
+Print Assumptions C14_outside_policy_2d.
+
+Theorem C14_outside_policy_3d :
+  forall x y z topx topy topz, increasing x topx -> increasing y topy -> increasing z topz ->
+  (3 <= topx)%Z -> (3 <= topy)%Z -> (3 <= topz)%Z -> forall fb nbe f hist px py pz,
+  (px < x 1%Z \/ x (topx - 1)%Z <= px) \/ (py < y 1%Z \/ y (topy - 1)%Z <= py) \/ (pz < z 1%Z \/ z (topz - 1)%Z <= pz) ->
+  eval_after3 fb nbe x y z topx topy topz f hist (px, py, pz) = if nbe then Direct (f (px, py, pz)) else Err.
+Proof. exact after3_outside. Qed.
+Print Assumptions C14_outside_policy_3d.
+
+(* ---- 7. every accepted caching area / resolution gives a strictly increasing node array with >= 4 nodes,
+        so the hypotheses above are met by every object the constructor accepts ---- *)
+Theorem C14_accepted_axis_is_increasing :
+  forall lo hi delta, axis_ok lo hi delta = true ->
+  increasing (axis lo hi delta) (axis_top lo hi delta) /\ (3 <= axis_top lo hi delta)%Z.
+Proof. exact axis_increasing. Qed.
+Print Assumptions C14_accepted_axis_is_increasing.
+
+(* ---- 8. the closed form used by the 1-D model IS the solution of the 4x4 system the code hands to
+        numpy.linalg.solve, and that system has no other solution ---- *)
+Theorem C14_closed_form_solves_the_1d_system :
+  forall t0 t1 d0 s0 d1 s1, ~ t1 - t0 == 0 ->
+  let '(a0, a1, a2, a3) := solve4 t0 t1 d0 s0 d1 s1 in
+  a0 + a1 * t0 + a2 * (t0 * t0) + a3 * (t0 * t0 * t0) == d0 /\
+  a1 + a2 * (2 * t0) + a3 * (3 * (t0 * t0)) == s0 /\
+  a0 + a1 * t1 + a2 * (t1 * t1) + a3 * (t1 * t1 * t1) == d1 /\
+  a1 + a2 * (2 * t1) + a3 * (3 * (t1 * t1)) == s1.
+Proof. exact solve4_solves. Qed.
+Print Assumptions C14_closed_form_solves_the_1d_system.
+
+Theorem C14_1d_system_has_one_solution :
+  forall t0 t1 a0 a1 a2 a3, ~ t1 - t0 == 0 ->
+  let '(b0, b1, b2, b3) := solve4 t0 t1 (a0 + a1 * t0 + a2 * (t0 * t0) + a3 * (t0 * t0 * t0))
+                                  (a1 + a2 * (2 * t0) + a3 * (3 * (t0 * t0)))
+                                  (a0 + a1 * t1 + a2 * (t1 * t1) + a3 * (t1 * t1 * t1))
+                                  (a1 + a2 * (2 * t1) + a3 * (3 * (t1 * t1))) in
+  b0 == a0 /\ b1 == a1 /\ b2 == a2 /\ b3 == a3.
+Proof. exact solve4_unique. Qed.
+Print Assumptions C14_1d_system_has_one_solution.
+
+(* ---- 9. PARTIAL: "approximates any twice-differentiable function to within a small multiple of
+        h^2 max|f''|".  Proved (1-D, cells whose four nodes are equally spaced, i.e. all cells except the
+        first and the last one of an axis): (a) quadratics are reproduced exactly; (b) stability: for ANY
+        affine function L the returned value is within 5/4 of the largest deviation of the four samples
+        from L.  Missing: Taylor's theorem with remainder over the reals (choose L = tangent of f at p:
+        |f - L| <= max|f''| (2h)^2 / 2 on the four nodes, which with (b) gives
+        |v - f p| <= (5/4) * 2 h^2 max|f''|); the non-uniform first/last cell; 2-D/3-D (by the tensor
+        structure the 1-D bound applies axis by axis, not proved here). ---- *)
+Theorem C14_error_bound_partial :
+  forall x top, increasing x top -> (3 <= top)%Z -> forall fb nbe f hist p i h v,
+  uniform_cell x i h -> locate1 x top p = Some i -> eval_after1 fb nbe x top f hist p = Val v ->
+  (forall A B C, (forall t, f t == A + B * t + C * t * t) -> v == f p) /\
+  (forall a b E, (forall k, (i - 1 <= k <= i + 2)%Z -> - E <= f (x k) - (a + b * x k) <= E) ->
+                 - ((5 # 4) * E) <= v - (a + b * p) <= (5 # 4) * E).
+Proof. exact after1_error_partial. Qed.
+Print Assumptions C14_error_bound_partial.
+
+(* non-vacuity: an accepted axis (area (0,1), resolution 1/4: 7 nodes) meets the hypotheses, and its cell 2 is
+   an equally spaced one *)
+Example C14_nonvacuous :
+  axis_ok 0 1 (1 # 4) = true /\ axis_top 0 1 (1 # 4) = 6%Z /\
+  increasing (axis 0 1 (1 # 4)) 6 /\ uniform_cell (axis 0 1 (1 # 4)) 2 ((1 + 2 * EPSILON) / 4) /\
+  locate1 (axis 0 1 (1 # 4)) 6 (3 # 8) = Some 2%Z.
+Proof.
+  split; [reflexivity|]. split; [reflexivity|]. split; [exact (proj1 (axis_increasing 0 1 (1 # 4) eq_refl))|].
+  split; [|vm_compute; reflexivity].
+  unfold uniform_cell. repeat split; vm_compute; reflexivity.
+Qed.
